@@ -137,16 +137,16 @@ Definition stream_step (st : asm_state) (parsed : M sentence) (tbq : option exn)
         let slot := (seq_id, a_channel msg) in
         let buffer1 :=
           if negb (buf_mem buffer slot)                     (* if slot not in buffer: *)
-          then buf_set buffer slot (py_repeat None (Z.max (fragment_count msg) 255))
+          then buf_set buffer slot (pyl_repeat None (Z.max (fragment_count msg) 255))
           else buffer in
         match buf_get buffer1 slot with
         | None => Raise (Py KeyError)                       (* unreachable *)
         | Some arr =>
-            arr' <- py_setitem arr (a_frag_num msg - 1) (Some msg) ;;   (* buffer[slot][msg.frag_num - 1] = msg *)
+            arr' <- pyl_setitem arr (a_frag_num msg - 1) (Some msg) ;;   (* buffer[slot][msg.frag_num - 1] = msg *)
             let buffer2 := buf_set buffer1 slot arr' in
-            let msg_parts := py_slice arr' 0 (fragment_count msg) in    (* buffer[slot][0:msg.fragment_count] *)
+            let msg_parts := pyl_slice arr' 0 (fragment_count msg) in    (* buffer[slot][0:msg.fragment_count] *)
             let not_none_parts := not_none msg_parts in
-            if py_len not_none_parts =? fragment_count msg then
+            if pyl_len not_none_parts =? fragment_count msg then
               full <- assemble_from_iterable not_none_parts ;;
               let '(out, wrapper') := stream_insert_wrapper wrapper full in
               Ok ((buf_del buffer2 slot, wrapper'), [out])  (* yield ...; del buffer[slot] *)
@@ -184,16 +184,16 @@ Definition queue_step (st : asm_state) (parsed : M sentence) (tbq : option exn)
         let slot := (seq_id, a_channel sentence) in
         let buffer1 :=
           if negb (buf_mem buffer slot)
-          then buf_set buffer slot (py_repeat None (Z.max (fragment_count sentence) 255))
+          then buf_set buffer slot (pyl_repeat None (Z.max (fragment_count sentence) 255))
           else buffer in
         match buf_get buffer1 slot with
         | None => Raise (Py KeyError)                       (* unreachable *)
         | Some arr =>
-            arr' <- py_setitem arr (a_frag_num sentence - 1) (Some sentence) ;;
+            arr' <- pyl_setitem arr (a_frag_num sentence - 1) (Some sentence) ;;
             let buffer2 := buf_set buffer1 slot arr' in
-            let msg_parts := py_slice arr' 0 (fragment_count sentence) in
+            let msg_parts := pyl_slice arr' 0 (fragment_count sentence) in
             let not_none_parts := not_none msg_parts in
-            if py_len not_none_parts =? fragment_count sentence then
+            if pyl_len not_none_parts =? fragment_count sentence then
               full <- assemble_from_iterable not_none_parts ;;
               (* repaired code ("fix: attach the pending Gatehouse wrapper to assembled multi-part messages"):
                  if self.last_wrapper: full.wrapper_msg = self.last_wrapper; self.last_wrapper = None *)
@@ -226,16 +226,16 @@ Definition queue_step_unrepaired (st : asm_state) (parsed : M sentence) (tbq : o
         let slot := (seq_id, a_channel sentence) in
         let buffer1 :=
           if negb (buf_mem buffer slot)
-          then buf_set buffer slot (py_repeat None (Z.max (fragment_count sentence) 255))
+          then buf_set buffer slot (pyl_repeat None (Z.max (fragment_count sentence) 255))
           else buffer in
         match buf_get buffer1 slot with
         | None => Raise (Py KeyError)
         | Some arr =>
-            arr' <- py_setitem arr (a_frag_num sentence - 1) (Some sentence) ;;
+            arr' <- pyl_setitem arr (a_frag_num sentence - 1) (Some sentence) ;;
             let buffer2 := buf_set buffer1 slot arr' in
-            let msg_parts := py_slice arr' 0 (fragment_count sentence) in
+            let msg_parts := pyl_slice arr' 0 (fragment_count sentence) in
             let not_none_parts := not_none msg_parts in
-            if py_len not_none_parts =? fragment_count sentence then
+            if pyl_len not_none_parts =? fragment_count sentence then
               full <- assemble_from_iterable not_none_parts ;;
               Ok ((buf_del buffer2 slot, last_wrapper), [full])
             else Ok ((buffer2, last_wrapper), [])
@@ -276,7 +276,7 @@ Definition iter_source (lines : list byte_line) : list byte_line := lines.
 
 (* Stream._iter_messages (no preprocessor): `if len(line) <= 10: continue`, then `if should_parse(line): yield line` *)
 Definition stream_source (lines : list byte_line) : list byte_line :=
-  filter (fun line => negb (py_len line <=? 10) && should_parse line) lines.
+  filter (fun line => negb (pyl_len line <=? 10) && should_parse line) lines.
 
 (* iterating a binary file object: readline() semantics, a line ends after each LF, the rest (if any) is the last line *)
 Fixpoint split_after_lf_acc (cur : byte_line) (content : list Z) : list byte_line :=
